@@ -1060,10 +1060,9 @@ class BaseDAGExecution(Generic[P, RVDAG]):
         Path(self.cache_in).parent.mkdir(parents=True, exist_ok=True)
         with open(self.cache_in, "wb") as f:
             if self.cache_deps_of is not None:
-                non_cacheable_ids: Set[Identifier] = set()
-                for aliases in self.cache_deps_of:
-                    ids = self.dag.alias_to_ids(aliases)
-                    non_cacheable_ids = non_cacheable_ids.union(ids)
+                # cache_deps_of holds ExecNode ids since __post_init__: resolving them as aliases once more would
+                # let a tag spelled like one of these ids take its place
+                non_cacheable_ids: Set[Identifier] = set(self.cache_deps_of)  # type: ignore[arg-type]
 
                 to_cache_results = {
                     id_: res for id_, res in results.items() if id_ not in non_cacheable_ids
